@@ -469,7 +469,7 @@ def _threshold_facts(chk, fn: FuncInfo):
                 cand, lin = st, l
     if cand is None:
         raise AnalysisError(f"{fn.qualname}: threshold count assignment not found (anchor vanished)")
-    terms = {"pre": 0, "count": 0, "const": 0, "other": []}
+    terms = {"pre": 0, "count": 0, "const": 0, "other": [], "inexact": []}
     cmp_ops = []
     for k, c in lin.items():
         node = ast.parse(k, mode="eval").body
@@ -477,6 +477,17 @@ def _threshold_facts(chk, fn: FuncInfo):
             terms["const"] += c * node.value
         elif any(isinstance(n, ast.Compare) for n in ast.walk(node)):
             terms["count"] += c
+            # the counted mask is ONE order comparison: nothing is or-ed / and-ed to it, no tolerance enters
+            for n in ast.walk(node):
+                if isinstance(n, ast.BinOp) and isinstance(n.op, (ast.BitOr, ast.BitAnd, ast.BitXor)):
+                    terms["inexact"].append(norm(n)[:80])
+                elif isinstance(n, ast.BoolOp) or (isinstance(n, ast.UnaryOp) and isinstance(n.op, ast.Invert)):
+                    terms["inexact"].append(norm(n)[:80])
+                elif isinstance(n, ast.Call) and (dotted(n.func) or "").split(".")[-1] in (
+                        "isclose", "allclose", "round", "around", "rint", "floor", "ceil", "logical_or", "logical_and", "where"):
+                    terms["inexact"].append(norm(n)[:80])
+            if sum(1 for n in ast.walk(node) if isinstance(n, ast.Compare)) != 1:
+                terms["inexact"].append("several comparisons")
             for n in ast.walk(node):
                 if isinstance(n, ast.Compare):
                     # orientation: requested fraction (self.n_modes) on the right
@@ -523,6 +534,10 @@ def _threshold(chk, dec, svd):
         ok_cmp = len(cmp_ops) == 1 and cmp_ops[0][0] == "GtE" and "n_modes" in cmp_ops[0][2]
         chk.check(ok_cmp, "SIB.threshold.cmp", fn, cand,
                   why=f"the count must be of cumulative fractions >= the requested fraction (found {cmp_ops})")
+        chk.check(not terms["inexact"], "SIB.threshold.exact", fn, cand, construct="the counted mask is the order comparison alone",
+                  why=f"the modes counted as reaching the requested fraction are not exactly those with cumulative fraction >= f ({terms['inexact'][:2]}): a "
+                      "fraction that lies within a tolerance ABOVE a cumulative value is taken as reached, fewer modes than needed are kept and the "
+                      "'cannot be reached' warning is lost")
         chk.check(bool(denom_ok) and ddof == 1, "SIB.threshold.norm", fn, cand,
                   construct="explained variance fraction: s**2/(N-1) against var(ddof=1)",
                   why=f"explained and total variance use different normalisations (N-1 recognised: {denom_ok}, ddof={ddof})")
